@@ -50,4 +50,11 @@ def prioLe (a b : PTest) : Bool := decide (b.priority ≤ a.priority)
 /-- `tests.sort_by_key(|t| t.settings.priority())` — a stable sort -/
 def queue (testsInIterOrder : List PTest) : List PTest := testsInIterOrder.mergeSort prioLe
 
+/-- `TestThreads::from_str` / its `Deserialize` (config/test_threads.rs) followed by `compute`: a positive count is itself, a
+    negative one is relative to the number of CPUs but never below 1, zero is rejected -/
+def threadCount (ncpu : Nat) (v : Int) : Option Nat :=
+  if v = 0 then none
+  else if v > 0 then some v.toNat
+  else some (max ((ncpu : Int) + v) 1).toNat
+
 end NextestModel.Priority
